@@ -535,6 +535,13 @@ def oracle_c20(h, r):
         want = sorted(allof('B') + [str(515151 + rk) for rk in range(h.n)])
         if allof('B3') != want:
             fails.append({'what': 'bag: deserialize() followed at once by one async_insert per rank holds %d items, image plus inserts is %d' % (len(allof('B3')), len(want))})
+    # checkpoint and continue: the image holds what the container held at serialize(), not what was issued after it returned
+    if all((rk, 'M5') in Z for rk in range(h.n)):
+        for tag, kind, want in (('M5', 'map', ['%d=%d' % (rk, 100 + rk) for rk in range(h.n)]), ('S5', 'set', [str(rk) for rk in range(h.n)]),
+                                ('B5', 'bag', [str(rk) for rk in range(h.n)]), ('C5', 'counting_set', ['7=%d' % h.n])):
+            if allof(tag) != sorted(want):
+                fails.append({'what': '%s: serialize(), then inserts of new keys, then deserialize() of that image into a fresh container: it holds %s, the container held %s when serialize() was called' % (
+                    kind, allof(tag)[:10], sorted(want)[:10])})
     allM = {int(t.split('=')[0]) for rk in range(h.n) for t in Z.get((rk, 'M'), ('', []))[1]}
     for rk in range(h.n):
         if 424242 + rk not in allM:
